@@ -60,6 +60,10 @@ pub enum When {
 #[derive(Clone, Debug, Default, Serialize, Deserialize, PartialEq)]
 pub struct Script {
     pub rules: Vec<(When, Action)>,
+    /// after this many requests the server only accepts-and-drops and raises `overrun` (0 = 4000): a clock-free
+    /// bound on the work a client may cause
+    #[serde(default)]
+    pub max_requests: usize,
     /// requests with range start >= data_from count as "data" requests
     pub data_from: u64,
 }
@@ -73,6 +77,7 @@ pub struct ReqLog {
 }
 
 pub struct Server {
+    pub overrun: Arc<AtomicBool>,
     pub port: u16,
     pub ip: String,
     pub log: Arc<Mutex<Vec<ReqLog>>>,
@@ -266,6 +271,9 @@ impl Server {
         let port = listener.local_addr().unwrap().port();
         let log = Arc::new(Mutex::new(vec![]));
         let stop = Arc::new(AtomicBool::new(false));
+        let overrun = Arc::new(AtomicBool::new(false));
+        let ov2 = overrun.clone();
+        let limit = if script.max_requests == 0 { 4000 } else { script.max_requests };
         let (l2, s2) = (log.clone(), stop.clone());
         let thread = std::thread::spawn(move || {
             let mut index = 0usize;
@@ -275,6 +283,11 @@ impl Server {
                     break;
                 }
                 if let Ok(s) = conn {
+                    if index >= limit {
+                        ov2.store(true, Ordering::SeqCst);
+                        let _ = s.shutdown(std::net::Shutdown::Both);
+                        continue;
+                    }
                     let before = l2.lock().unwrap().len();
                     handle(s, &data, &script, index, &mut data_index, &l2);
                     if l2.lock().unwrap().len() > before {
@@ -283,7 +296,7 @@ impl Server {
                 }
             }
         });
-        Server { port, ip, log, stop, thread: Some(thread) }
+        Server { overrun, port, ip, log, stop, thread: Some(thread) }
     }
     pub fn url(&self) -> String {
         format!("http://{}:{}/archive.cba", self.ip, self.port)
